@@ -494,6 +494,10 @@ func condErr(v string) error {
 
 // applyStrConds registers handle/abort/cancel conditions through the real builder methods.
 func applyStrConds(cs []cond, alt bool, onErrsV func(...error), onTypes func(...any), onResult func(string), onIf func(func(string, error) bool)) {
+	// (nothing configured: an empty registration call, as in HandleErrors(cfg.Errors...) with an empty list, still configures nothing)
+	if alt && len(cs) == 0 {
+		onErrsV()
+	}
 	// all error registrations go through ONE variadic call, as users write HandleErrors(a, b) / AbortOnErrors(a, b)
 	var errs []error
 	for _, c := range cs {
@@ -503,6 +507,9 @@ func applyStrConds(cs []cond, alt bool, onErrsV func(...error), onTypes func(...
 	}
 	if len(errs) > 0 {
 		onErrsV(errs...)
+		for i := range errs {
+			errs[i] = errors.New("overwritten after the registration")
+		}
 	}
 	// ... and all error-type registrations through one HandleErrorTypes(A{}, &B{}) call
 	var types []any
